@@ -19,6 +19,7 @@ import (
 	"github.com/pingcap/log"
 	"github.com/tikv/pd/pkg/grpcutil"
 	"github.com/tikv/pd/server/core"
+	"github.com/tikv/pd/server/encryptionkm"
 	"github.com/tikv/pd/server/kv"
 	syncer "github.com/tikv/pd/server/region_syncer"
 	"google.golang.org/grpc"
@@ -75,6 +76,7 @@ type SCase struct {
 	Offline       []Change `json:"offline,omitempty"` //
 	Post2         []Change `json:"post2,omitempty"`   // changes after the reconnection
 	Faults        []Fault  `json:"faults,omitempty"`  // failing region saves on the follower
+	Enc           int      `json:"enc,omitempty"`     // encryption at rest on the follower's storage: 0 off, 1..3 aes128/192/256-ctr
 	// Size dimension: every region key gets KeyPad extra bytes; Bulk more flow changes (bodies taken in
 	// turn from BulkBodies, regions in turn) are reported before the follower connects (BulkWhere
 	// "pre": with a fresh leader the follower catches up from index 0 in ONE response) or while it is
@@ -179,9 +181,8 @@ func genBigSync(t *rapid.T) SCase {
 			c.Bulk = rapid.SampledFrom([]int{1000, 3000, 9000, 9900}).Draw(t, "bulk")
 			c.PadRecords = c.Bulk + 10
 		}
-		c.BulkWhere = "pre"
-		if kind == "offline" {
-			c.BulkWhere = "offline"
+		c.BulkWhere = "offline"
+		{
 			c.HistIdx = rapid.SampledFrom([]uint64{0, 5000}).Draw(t, "hist")
 			c.Post = genChanges(t, "npost1", []int{1})
 			c.Reconnect = true
@@ -216,7 +217,7 @@ func genSync(t *rapid.T) SCase {
 		c.HistIdx = rapid.SampledFrom([]uint64{1, 7, 100, 101, 250, 5000, 123456, 1 << 40}).Draw(t, "hist")
 	}
 	c.RegionStorage = rapid.IntRange(0, 4).Draw(t, "regionStorage") >= 2
-	c.Pre = genChanges(t, "npre", []int{0, 0, 0, 0, 1, 2, 5, 130})
+	c.Pre = genChanges(t, "npre", []int{0, 0, 0, 0, 1, 1, 2, 5, 30, 99, 130})
 	c.Post = genChanges(t, "npost", []int{0, 1, 1, 2, 3, 5, 8, 120})
 	if rapid.IntRange(0, 4).Draw(t, "reconnect") == 0 {
 		c.Reconnect = true
@@ -236,6 +237,9 @@ func genSync(t *rapid.T) SCase {
 		c.ExTerm = rapid.SampledFrom([]uint64{1, 6, 100}).Draw(t, "exTerm")
 		c.ExEvery = rapid.SampledFrom([]int{1, 1, 2, 3}).Draw(t, "exEvery")
 		c.ExOff = rapid.IntRange(0, 2).Draw(t, "exOff")
+	}
+	if rapid.IntRange(0, 3).Draw(t, "encrypted") == 0 {
+		c.Enc = rapid.IntRange(1, 3).Draw(t, "enc")
 	}
 	if !c.RegionStorage && rapid.IntRange(0, 3).Draw(t, "faulty") != 0 {
 		phases := []string{"initial", "initial", "post", "post"}
@@ -461,23 +465,32 @@ func (fx *fixture) arm(faults []Fault, phase string) {
 	}
 }
 
-func newSrv(ctx context.Context, dir, name string, fx *fixture, base kv.Base) (*fakeSrv, error) {
-	rs, err := core.NewRegionStorage(ctx, dir+"/"+name, nil)
+func newSrv(ctx context.Context, dir, name string, fx *fixture, base kv.Base, km *encryptionkm.KeyManager) (*fakeSrv, error) {
+	rs, err := core.NewRegionStorage(ctx, dir+"/"+name, km)
 	if err != nil {
 		return nil, err
 	}
 	fx.storages = append(fx.storages, rs)
 	m := &pdpb.Member{Name: name, MemberId: uint64(len(name)), ClientUrls: []string{"http://" + name + ".invalid:2379"}}
 	return &fakeSrv{ctx: ctx, name: name, member: m,
-		storage: core.NewStorage(base, core.WithRegionStorage(rs)),
+		storage: core.NewStorage(base, core.WithRegionStorage(rs), core.WithEncryptionKeyManager(km)),
 		bc:      core.NewBasicCluster()}, nil
 }
 
 func newFixture(histIdx uint64, followerRegionStorage bool) (*fixture, error) {
-	return newFixtureOpt(histIdx, followerRegionStorage, false)
+	return newFixtureOpt(histIdx, followerRegionStorage, false, 0, 0)
 }
 
-func newFixtureOpt(histIdx uint64, followerRegionStorage, noLoop bool) (*fixture, error) {
+// encLeader / encFollower: encryption at rest of that member's storage (0 off, 1..3 method)
+func newFixtureOpt(histIdx uint64, followerRegionStorage, noLoop bool, encLeader, encFollower int) (*fixture, error) {
+	kmL, err := keyManager(encLeader)
+	if err != nil {
+		return nil, err
+	}
+	kmF, err := keyManager(encFollower)
+	if err != nil {
+		return nil, err
+	}
 	slots <- struct{}{}
 	fx := &fixture{noLoop: noLoop, notifier: make(chan *core.RegionInfo, 10000), quit: make(chan struct{}),
 		failAt: map[int]bool{}, lastSaveFailed: map[uint64]bool{}, faulty: !followerRegionStorage}
@@ -493,12 +506,12 @@ func newFixtureOpt(histIdx uint64, followerRegionStorage, noLoop bool) (*fixture
 		fx.close()
 		return nil, err
 	}
-	if fx.leaderSrv, err = newSrv(ctx, dir, "leader", fx, kv.NewMemoryKV()); err != nil {
+	if fx.leaderSrv, err = newSrv(ctx, dir, "leader", fx, kv.NewMemoryKV(), kmL); err != nil {
 		return fail(err)
 	}
 	fkv := faultkv.New(kv.NewMemoryKV())
 	fkv.SetGate(fx.gate)
-	if fx.followerSrv, err = newSrv(ctx, dir, "follower", fx, fkv); err != nil {
+	if fx.followerSrv, err = newSrv(ctx, dir, "follower", fx, fkv, kmF); err != nil {
 		return fail(err)
 	}
 	fx.followerSrv.leader, fx.leaderSrv.leader = fx.leaderSrv.member, fx.leaderSrv.member
@@ -906,6 +919,8 @@ type syncResult struct {
 	reused       int    // broadcasts after the restart that lie entirely below the follower's old index
 	maxBytes     int    // largest single response
 	rejected     string // the follower kept re-requesting the same index
+	neverSent    int    // regions held by the leader at connect time and never sent to the fresh follower
+	restartedAt0 bool   // the leader's change log started at index 0 although it held regions
 }
 
 // prefillExLeader fills the follower's cache the way a former leader's cache looks: regions built
@@ -1000,7 +1015,7 @@ func execSync(c SCase, excludeKnown bool) (res syncResult) {
 			c.KeyPad = 0
 		}
 	}
-	fx, err := newFixture(hist, c.RegionStorage)
+	fx, err := newFixtureOpt(hist, c.RegionStorage, false, 0, c.Enc)
 	if err != nil {
 		res.inconclusive = "fixture: " + err.Error()
 		return
@@ -1085,10 +1100,17 @@ func execSync(c SCase, excludeKnown bool) (res syncResult) {
 	}
 
 	// changes before the follower connects
-	if n := report(c.Pre) + report(bulk("pre")); !leaderAt(n) {
+	preRecords := report(c.Pre) + report(bulk("pre"))
+	if !leaderAt(preRecords) {
 		res.inconclusive = "pre: the leader did not record the reported regions in time"
 		return
 	}
+	// what the leader holds when the fresh follower (empty cache, index 0) connects
+	heldAtConnect := make([]uint64, 0, len(st.want))
+	for id := range st.want {
+		heldAtConnect = append(heldAtConnect, id)
+	}
+	sort.Slice(heldAtConnect, func(i, j int) bool { return heldAtConnect[i] < heldAtConnect[j] })
 	fx.arm(c.Faults, "initial")
 	fx.startFollower()
 	t := fx.waitBound(0)
@@ -1238,10 +1260,7 @@ func execSync(c SCase, excludeKnown bool) (res syncResult) {
 			lastMsg[id] = m
 		}
 	}
-	if hist == 0 && res.fullBatches > 0 {
-		// a fresh leader answers from its change log: one catch-up message, not a full synchronisation
-		res.catchUp = true
-	}
+	res.restartedAt0 = hist == 0 && len(c.Regions) > 0
 	ids := make([]uint64, 0, len(lastMsg))
 	for id := range lastMsg {
 		ids = append(ids, id)
@@ -1311,6 +1330,24 @@ func execSync(c SCase, excludeKnown bool) (res syncResult) {
 	fx.mu.Lock()
 	res.saveFaults = len(fx.failed)
 	fx.mu.Unlock()
+	// The follower connects with an empty change log (index 0): it has nothing yet, so it has to be
+	// given every region the leader holds at that moment, whatever the leader's change log holds
+	// (a leader restarted before the first flush of its index is at 0, or at p < 100 after p new
+	// records, with a cache full of regions loaded from its storage).
+	if len(heldAtConnect) > 0 {
+		if hist == 0 && excludeKnown && vkit.Known(keyIndex0) {
+			// known finding: such a follower is told it is in sync / is sent the p records only.
+			// Trigger class excluded: only what was sent is compared.
+			res.excluded[keyIndex0]++
+		} else {
+			for _, id := range heldAtConnect {
+				if lastMsg[id] == nil && st.want[id] != nil && fx.followerSrv.bc.GetRegion(id) == nil {
+					res.neverSent++
+					res.diffs = append(res.diffs, diff{id, "never-sent", fmt.Sprintf("the leader held the region when the follower (index 0) connected (the leader's change log then: next index %d after %d new records) and never sent it: the follower does not hold it", hist+uint64(preRecords), preRecords)})
+				}
+			}
+		}
+	}
 	return
 }
 
@@ -1325,7 +1362,7 @@ func (m *msg) describe() string {
 func runSync(c SCase) (vkit.Info, error) {
 	var info vkit.Info
 	res := execSync(c, true)
-	for _, k := range []string{keyFullSyncLeaders, keyReloadLeaders, keyUnbind, keyOverMsgSize} {
+	for _, k := range []string{keyFullSyncLeaders, keyReloadLeaders, keyUnbind, keyOverMsgSize, keyIndex0} {
 		if res.excluded[k] > 0 {
 			info.Exclude(k)
 		}
@@ -1340,17 +1377,19 @@ func runSync(c SCase) (vkit.Info, error) {
 	if len(res.diffs) > 0 {
 		return info, fmt.Errorf("%d regions sent, %d compared, %d differences; first: %s", res.sent, res.compared, len(res.diffs), res.firstDiff(""))
 	}
-	hist := c.HistIdx != 0 || (c.HistPlusN && n > 0)
-	full := hist && res.fullBatches > 0
+	full := res.fullBatches > 0
 	info.ClassIf(full, "full-sync")
 	info.ClassIf(full && res.fullBatches > 1, fmt.Sprintf("full-sync-batches=%d", res.fullBatches))
 	info.ClassIf(res.catchUp, "history-catch-up")
+	info.ClassIf(res.restartedAt0 && len(c.Pre) == 0, "leader-at-index-0-with-regions")
+	info.ClassIf(res.restartedAt0 && len(c.Pre) > 0 && len(c.Pre) < 100, "leader-at-index-0-with-regions+p<100-records")
 	info.ClassIf(res.broadcasts > 0, "broadcast")
 	info.ClassIf(c.Reconnect && res.excluded[keyReloadLeaders] == 0, "reconnect")
 	info.ClassIf(res.sent == 0, "nothing-sent")
 	info.ClassIf(res.dropped > 0, "merged-away")
 	info.ClassIf(!c.RegionStorage, "follower-default-storage")
 	info.ClassIf(res.saveFaults > 0, "follower-save-fault")
+	info.ClassIf(c.Enc%4 != 0, "follower-encryption-at-rest")
 	info.ClassIf(res.exLeader > 0, fmt.Sprintf("ex-leader-follower-term=%d", c.ExTerm))
 	info.ClassIf(res.restarted, "leader-restart")
 	switch {
@@ -1399,7 +1438,7 @@ func runSync(c SCase) (vkit.Info, error) {
 	h := fnv.New64a()
 	fmt.Fprintf(h, "%+v", c)
 	info.Sample = map[string]interface{}{"regions": n, "hist": c.HistIdx, "hist_plus_n": c.HistPlusN, "pre": len(c.Pre), "post": len(c.Post),
-		"reconnect": c.Reconnect, "offline": len(c.Offline), "post2": len(c.Post2), "region_storage": c.RegionStorage, "save_faults": res.saveFaults, "ex_leader_regions": res.exLeader, "ex_term": c.ExTerm, "key_pad": c.KeyPad, "bulk": c.Bulk, "bulk_where": c.BulkWhere, "largest_response": res.maxBytes, "leader_restart": c.LeaderRestart, "before_restart": len(c.BeforeRestart), "after_restart": len(c.AfterRestart),
+		"reconnect": c.Reconnect, "offline": len(c.Offline), "post2": len(c.Post2), "region_storage": c.RegionStorage, "enc": c.Enc, "save_faults": res.saveFaults, "ex_leader_regions": res.exLeader, "ex_term": c.ExTerm, "key_pad": c.KeyPad, "bulk": c.Bulk, "bulk_where": c.BulkWhere, "largest_response": res.maxBytes, "leader_restart": c.LeaderRestart, "before_restart": len(c.BeforeRestart), "after_restart": len(c.AfterRestart),
 		"full_sync_batches": res.fullBatches, "regions_sent": res.sent, "with_leader": res.withLeader, "case_fnv64": fmt.Sprintf("%016x", h.Sum64())}
 	return info, nil
 }
